@@ -65,6 +65,13 @@ def gen_tree(rnd, maxents=8, sizes=(0, 1, 2, 10, 10, 300), depth_bias=0.5):
 def gen_target(rnd, t):
     inroot = t.inroot()
     r = rnd.random()
+    if rnd.random() < 0.06:
+        # long targets: many harmless segments, then a climb (a scan that stops early, a counter that wraps)
+        k = rnd.choice([15, 30, 31, 32, 33, 64, 127, 128, 255, 256, 300])
+        filler = rnd.choice(["./", "/", "sub/../", "x/", "./"])
+        climb = "../" * rnd.choice([1, 1, 2, 3])
+        tail = rnd.choice(["secret5.txt", "secret0.txt", "outer/secret5.txt", "a.txt", "root/a.txt"])
+        return "/" + filler * k + climb + tail
     if inroot and r < 0.55:
         x = rnd.choice(inroot)
         m = rnd.random()
